@@ -70,10 +70,9 @@ theorem shl_u8_correct (x s : Nat) (hx : x < 256) (hs : s < 256) :
   have e2 : ((s : ℤ) % 2 ^ 8).toNat = s := by omega
   simp only [e1, e2]
   by_cases h8 : 8 ≤ s
-  · rw [if_pos h8]
-    have := pow_mod_zero s h8 x
-    norm_cast
-  · rw [if_neg h8]
+  · simp [h8]
+  · have h8' : ¬ s ≥ 8 := h8
+    simp only [ge_iff_le, h8, if_false]
     norm_cast
     omega
 
@@ -88,10 +87,8 @@ theorem shrl_u8_correct (x s : Nat) (hx : x < 256) (hs : s < 256) :
   have e2 : ((s : ℤ) % 2 ^ 8).toNat = s := by omega
   simp only [e1, e2]
   by_cases h8 : 8 ≤ s
-  · rw [if_pos h8]
-    have := div_pow_zero s h8 x hx
-    norm_cast
-  · rw [if_neg h8]
+  · simp [h8]
+  · simp only [ge_iff_le, h8, if_false]
     have hlt : x / 2 ^ s < 256 := lt_of_le_of_lt (Nat.div_le_self _ _) hx
     norm_cast
     exact (Nat.mod_eq_of_lt (by norm_num; exact hlt)).symm
@@ -110,10 +107,8 @@ theorem shra_u8_correct_partial (x s : Nat) (hx : x < 128) (hs : s < 256) :
   have hneg : ¬ (x ≥ 2 ^ (8 - 1)) := by norm_num; omega
   simp only [e1, e2, hneg, decide_false, Bool.false_eq_true, if_false]
   by_cases h8 : 8 ≤ s
-  · rw [if_pos h8]
-    have := div_pow_zero s h8 x (by omega)
-    norm_cast
-  · rw [if_neg h8]
+  · simp [h8]
+  · simp only [ge_iff_le, h8, if_false]
     have hlt : x / 2 ^ s < 256 := lt_of_le_of_lt (Nat.div_le_self _ _) (by omega)
     norm_cast
     exact (Nat.mod_eq_of_lt (by norm_num; exact hlt)).symm
